@@ -173,6 +173,11 @@ def gen(ctx, todo_cells):
                         b = opens[ok] if mk == 'open' else (notifs[ok] if ok else msgs[mk])
                         out.append({'delay': delay, 'hold': rng.choice([90, 3, 0]), 'ap': '1.1,2.1', 'pre': pre,
                                     'steps': [('%s:%s' % (via, b.hex()), 'msg:' + mk, ok)], 'from': st, 'via': via})
+    # 3b. bursts: the same UPDATE n times back to back, more than the queue towards the application holds (64 in the harness; the
+    #     application takes a message only when the session waits for it): in Established every one of them arrives, in order
+    for st, pre in prefixes.items():
+        for n in ((1, 64, 65, 200) if quick else (1, 2, 63, 64, 65, 66, 128, 129, 200, 1000)):
+            out.append({'delay': 0, 'hold': 90, 'ap': '1.1,2.1', 'pre': pre, 'steps': [('U:%d:%s' % (n, UPDATE.hex()), 'burst', n)], 'from': st})
     # 4. long random histories
     for _ in range(150 if quick else 5000):
         steps = []
@@ -237,6 +242,18 @@ def run(ctx):
 
                 def viol(what, **kw):
                     ctx.violation(what, case=lines[i][:700], step='%d: %s in %s' % (j, ev, st), impl=fld[:200], **kw)
+                if ev == 'burst':
+                    cnt = app.split('+').count('update')
+                    want = rfc_next(st, 'UpdateMsg', dot, bool(c['delay']), False)
+                    cells.add((st, 'UpdateMsg'))
+                    stats['bursts'] = stats.get('bursts', 0) + 1
+                    if res == 'PANIC':
+                        viol('the session panicked')
+                    elif new_st != want:
+                        viol('next state is %s, RFC 4271 prescribes %s' % (new_st, want))
+                    elif cnt != (ok if st == 'Established' else 0):
+                        viol('a burst of %d UPDATEs in %s: %d reached the application' % (ok, st, cnt))
+                    break
                 if ev.startswith('msg:'):
                     mk = ev[4:]
                     via = step[0]
